@@ -65,47 +65,61 @@ def murex_level(ck, quick):
     import json as _json
     from vlib import prog
     kinds = ['plain', 'alias']
+
+    def mk(cid, combo, scale):
+        src = 'alias slpv%d=sleep %g\n' % (cid, 2 * scale)
+        for k in combo:
+            src += 'bg { %s }\n' % (('sleep %g' % (2 * scale)) if k == 'plain' else 'slpv%d' % cid)
+        src += 'sleep %g\nfid-list --jobs\nout ---\nsleep %g\nfid-list --jobs\n!alias slpv%d\n' % (0.6 * scale, 2.4 * scale, cid)
+        return src
+
+    def rows(t):
+        rr = []
+        for line in t.strip().split('\n'):
+            try:
+                v = _json.loads(line)
+            except ValueError:
+                continue
+            if v and v[0] != 'JobID':
+                rr.append(v)
+        return rr
+
+    def judge(combo, x):
+        if x is None or x['status'] != 'done':
+            return 'bg program crashed or hung', ''
+        out = x['runs'][0]['out'].decode('utf-8', 'replace')
+        first, _, second = out.partition('---\n')
+        r1, r2 = rows(first), rows(second)
+        want = ['%%%d' % (i + 1) for i in range(len(combo))]
+        if [r[0] for r in r1] != want or len(set(r[1] for r in r1)) != len(combo) or r2:
+            return '`bg` x%d (%s): jobs listed %s while running and %s after all ended; model: %s then nothing' % (
+                len(combo), '+'.join(combo), [(r[0], r[1]) for r in r1], [(r[0], r[1]) for r in r2], want), out
+        return None, out
+
     cases = []
     meta = {}
     cid = 0
     for n in (1, 2, 3):
         for combo in itertools.product(kinds, repeat=n):
             cid += 1
-            src = 'alias slpv%d=sleep 2\n' % cid
-            for k in combo:
-                src += 'bg { %s }\n' % ('sleep 2' if k == 'plain' else 'slpv%d' % cid)
-            src += 'sleep 0.6\nfid-list --jobs\nout ---\nsleep 2.4\nfid-list --jobs\n!alias slpv%d\n' % cid
-            cases.append({'id': cid, 'src': src, 'timeout_ms': 20000})
+            src = mk(cid, combo, 1)
+            cases.append({'id': cid, 'src': src, 'timeout_ms': 30000})
             meta[cid] = (combo, src)
     res = prog.run_programs(ck, cases, shards=min(len(cases), 14), tag='jobs')
     good = 0
-    for cid, (combo, src) in meta.items():
-        x = res.get(cid)
+    for cid_, (combo, src) in meta.items():
         ck.cov['evaluations'] += 1
-        if x is None or x['status'] != 'done':
-            ck.violation('murex:%s:%s' % ('+'.join(combo), x and x['status']), 'bg program crashed or hung', {'src': src})
-            continue
-        out = x['runs'][0]['out'].decode('utf-8', 'replace')
-        first, _, second = out.partition('---\n')
-        def rows(t):
-            rr = []
-            for line in t.strip().split('\n'):
-                try:
-                    v = _json.loads(line)
-                except ValueError:
-                    continue
-                if v and v[0] != 'JobID':
-                    rr.append(v)
-            return rr
-        r1, r2 = rows(first), rows(second)
-        ids = [r[0] for r in r1]
-        fids = [r[1] for r in r1]
-        want = ['%%%d' % (i + 1) for i in range(len(combo))]
-        if ids != want or len(set(fids)) != len(combo) or r2:
-            ck.violation('murex:listing:' + '+'.join(combo),
-                         '`bg` x%d (%s): jobs listed %s while running and %s after all ended; model: %s then nothing' % (
-                             len(combo), '+'.join(combo), [(r[0], r[1]) for r in r1], [(r[0], r[1]) for r in r2], want),
-                         {'src': src, 'stdout': out})
+        bad, out = judge(combo, res.get(cid_))
+        if bad:
+            # timing guard (rule 4.4): the listing is taken 0.6 s into 2 s jobs; on a loaded machine that margin
+            # can be missed, so the case is repeated alone with every duration tripled before it is believed
+            cid += 1
+            src2 = mk(cid, combo, 3)
+            r2 = prog.run_programs(ck, [{'id': cid, 'src': src2, 'timeout_ms': 60000}], shards=1, tag='jobs2')
+            bad, out = judge(combo, r2.get(cid))
+            src = src2
+        if bad:
+            ck.violation('murex:listing:' + '+'.join(combo), bad, {'src': src, 'stdout': out})
         else:
             good += 1
             if len(combo) == 2 and 'alias' in combo and len(ck.cov['samples']) < 5:
